@@ -577,6 +577,33 @@ func c12Generate(seed int64, scale int) [][]*c12Case {
 				}
 			})
 		}
+		// F9: configurations the code does not validate: Multiplier <= 0, negative intervals,
+		// negative MaxElapsedTime (rf = 0: the randomisation window would be inverted otherwise)
+		for i := 0; i < 10; i++ {
+			cfg := c12Cfg{MR: c12pick(rng, 2, 3, 4), Init: c12pick64(rng, 2, 5) * c12ms, MaxI: c12pick64(rng, 6, 10) * c12ms,
+				Mult: [2]int64{2, 1}, RF: [2]int64{0, 1}}
+			switch i % 5 {
+			case 0:
+				cfg.Mult = [2]int64{c12pick64(rng, -2, -1, -3), c12pick64(rng, 1, 2)}
+			case 1:
+				cfg.Mult = [2]int64{0, 1}
+				if rng.Intn(2) == 0 {
+					cfg.MaxI = -4 * c12ms
+				}
+			case 2:
+				cfg.Init = -c12pick64(rng, 3, 7) * c12ms
+			case 3:
+				cfg.MaxI = -c12pick64(rng, 2, 4) * c12ms
+				if rng.Intn(2) == 0 {
+					cfg.Mult = [2]int64{-2, 1}
+					cfg.Init = -5 * c12ms
+				}
+			case 4:
+				cfg.ME = -c12pick64(rng, 1, 20) * c12ms
+			}
+			c12notes(rng, &cfg)
+			add("unvalidated-config", c12pickMode(rng), cfg, 1+rng.Intn(2), func(i int, c *c12Case) { c.Script = c12randScript(rng, cfg.MR) })
+		}
 		// F8: boundaries: MaxRetries 0 / negative / 1, zero intervals, Initial > Max, Multiplier < 1, rf = 1
 		for i := 0; i < 12; i++ {
 			cfg := c12smallCfg(rng)
